@@ -188,6 +188,8 @@ class Cell:
                 neighbor: neighbor._agents for neighbor in self.connections.values()
             }
             if not include_center:
+                # a cell connected to itself (torus axis of size 1) is not its own neighbor
+                neighborhood.pop(self, None)
                 return neighborhood
             else:
                 neighborhood[self] = self._agents
